@@ -41,6 +41,17 @@ class Scratch:
         sh(["git", "-C", "/repo", "worktree", "prune"])
 
 
+def apply_patch(wt, patch):
+    """git apply; when the tree has moved on since the patch was written, fall back to a three-way merge of it"""
+    rc, out = sh(["git", "apply", patch], cwd=wt)
+    if rc != 0:
+        sh(["git", "checkout", "--", "."], cwd=wt)
+        rc, out = sh(["git", "apply", "-3", patch], cwd=wt)
+        if rc == 0 and "<<<<<<<" in sh("git diff", cwd=wt)[1]:
+            rc = 1
+    return rc, out
+
+
 def meta_path(i):
     return os.path.join(VERIF, "seeded", i, "meta.json")
 
@@ -80,7 +91,7 @@ def cmd_verify(a):
     with Scratch(a.id) as wt:
         env = {"GT_ROOT": wt, "PYTHONDONTWRITEBYTECODE": "1", "MPLBACKEND": "Agg"}
         rc_clean, out_clean = sh([PY, os.path.join(d, "demo.py")], cwd=wt, env=env, timeout=900)
-        rc_ap, out_ap = sh(["git", "apply", os.path.join(d, "patch.diff")], cwd=wt)
+        rc_ap, out_ap = apply_patch(wt, os.path.join(d, "patch.diff"))
         rc_mut, out_mut = sh([PY, os.path.join(d, "demo.py")], cwd=wt, env=env, timeout=900)
         ok_base, base_line = baseline(wt)
     m["verified"] = {"demo_passes_on_clean_tree": rc_clean == 0, "patch_applies": rc_ap == 0,
@@ -102,7 +113,7 @@ def cmd_detect(a):
     checks = a.checks.split(",") if a.checks else [m["property"]]
     res = {}
     with Scratch(a.id) as wt:
-        rc_ap, out_ap = sh(["git", "apply", os.path.join(d, "patch.diff")], cwd=wt)
+        rc_ap, out_ap = apply_patch(wt, os.path.join(d, "patch.diff"))
         if rc_ap != 0:
             print("patch does not apply:", out_ap)
             return 2
